@@ -457,5 +457,205 @@ def klPairs [OfNat K 0] [LT K] [DecidableLT K] [Add K] [Sub K] [Mul K] (log : K 
   (d.canon.filter fun c => decide (c.1 < c.2.2.1) || decide (c.2.1 < Int.tmod c.2.2.2 d.N)).foldl
     (fun s c => s + klTerm log (F1.get (d.key c)) (F2.get (d.key c)) thr) 0
 
+/-! ## the model-free versions (uniform model: every LOR of the window has model value 1) -/
+
+/-- the inner double loop of `make_fan_sum_data(Array<2,float>&, const DetectorEfficiencies&, max_ring_diff, half_fan_size)`
+(ML_norm.cxx:1526-1529) and of the model-free `iterate_efficiencies` (:1672-1676): `Σ_rb Σ_b efficiencies[rb][b % N]` over
+`rb = max(ra - max_ring_diff, 0) .. min(ra + max_ring_diff, num_rings - 1)`, `b = a + N/2 - half_fan_size .. a + N/2 + half_fan_size`
+(`num_rings`, `N` = the lengths of the fan-sum array). -/
+def effDenominatorNM [OfNat K 0] [Add K] (d : Dims) (eff : Tab K) (ra a : Int) : K :=
+  (intRange (d.minRb ra) (d.maxRb ra)).foldl (fun s rb =>
+    (intRange (d.minB a) (d.maxB a)).foldl (fun s b => s + eff.get (rb, Int.tmod b d.N)) s) 0
+
+/-- `make_fan_sum_data(Array<2,float>& data_fan_sums, const DetectorEfficiencies& efficiencies, const int max_ring_diff,
+const int half_fan_size)` (ML_norm.cxx:1513-1532): `data_fan_sums[ra][a] = efficiencies[ra][a] * fan_sum`. -/
+def makeFanSumsNM [OfNat K 0] [Add K] [Mul K] (d : Dims) (eff : Tab K) : Tab K :=
+  d.dets.foldl (fun T ra_a => T.set ra_a (eff.get ra_a * effDenominatorNM d eff ra_a.1 ra_a.2)) {}
+
+/-- body of the detector loop of the model-free `iterate_efficiencies` (ML_norm.cxx:1668-1678), in place -/
+def effStepNM [OfNat K 0] [BEq K] [Add K] [Div K] (d : Dims) (sums : Tab K) (eff : Tab K) (ra_a : Int × Int) : Tab K :=
+  if sums.get ra_a == 0 then eff.set ra_a 0
+  else eff.set ra_a (sums.get ra_a / effDenominatorNM d eff ra_a.1 ra_a.2)
+
+/-- `iterate_efficiencies(DetectorEfficiencies&, const Array<2,float>& data_fan_sums, const int max_ring_diff,
+const int half_fan_size)` (ML_norm.cxx:1654-1698, "version without model") -/
+def iterateEffNM [OfNat K 0] [BEq K] [Add K] [Div K] (d : Dims) (eff sums : Tab K) : Tab K :=
+  d.dets.foldl (effStepNM d sums) eff
+
+/-! ## `DetPairData`: the detector pairs of one sinogram pair (segment `±s` at one axial position)
+
+`DetPairData` is a jagged `Array<2,float>` `[a][b]`, `a = 0..N-1`, `b = a + N/2 - h .. a + N/2 + h` (not reduced mod `N`),
+addressed through `operator()(a,b)`.  The model keeps it in the same container as the 4-dimensional arrays, at index
+`(0, a, 0, b)`.  The one-dimensional arrays (`Array<1,float>` efficiencies, fan sums) are `Tab`s at `(0, a)`, the two-dimensional
+`GeoData` / `BlockData` (`Array<2,float>`) are `Tab`s at `(i, j)`. -/
+
+/-- `num_detectors` and the half fan size of a `DetPairData` -/
+structure DPDims where
+  N : Int
+  h : Int
+deriving Repr, BEq, DecidableEq
+
+/-- `make_det_pair_data_help(DetPairData&, const TProjDataInfo&, segment_num, ax_pos_num)` (ML_norm.cxx:147-170):
+`fan_size = 2 * max(max_tangential_pos_num, -min_tangential_pos_num) + 1`, `half_fan_size = fan_size / 2`
+(note `max` where `get_fan_info` has `min`). -/
+def dpDimsOf (N minTang maxTang : Int) : DPDims := ⟨N, Int.tdiv (2 * max maxTang (-minTang) + 1) 2⟩
+
+/-- `get_min_index(a)`: `a + num_detectors/2 - half_fan_size` (:166) -/
+def DPDims.minB (d : DPDims) (a : Int) : Int := a + Int.tdiv d.N 2 - d.h
+/-- `get_max_index(a)` (:166) -/
+def DPDims.maxB (d : DPDims) (a : Int) : Int := a + Int.tdiv d.N 2 + d.h
+
+/-- `DetPairData::operator()(a, b)` (ML_norm.cxx:59-69): `(*this)[a][b < get_min_index(a) ? b + num_detectors : b]` -/
+def DPDims.storeKey (d : DPDims) (a b : Int) : Key := (0, a, 0, if b < d.minB a then b + d.N else b)
+
+/-- `DetPairData::is_in_data(a, b)` (ML_norm.cxx:71-78) -/
+def DPDims.isInData (d : DPDims) (a b : Int) : Bool :=
+  if b ≥ d.minB a then decide (b ≤ d.maxB a) else decide (b + d.N ≤ d.maxB a)
+
+/-- the loop nest `for a = get_min_index()..get_max_index(); for b = get_min_index(a)..get_max_index(a)` (e.g. :292-293),
+as index tuples `(0, a, 0, b)` -/
+def DPDims.canon (d : DPDims) : List Key :=
+  (intRange 0 (d.N - 1)).flatMap fun a => (intRange (d.minB a) (d.maxB a)).map fun b => (0, a, 0, b)
+
+/-- the array element addressed by an index tuple of the loop nest -/
+def DPDims.key (d : DPDims) (c : Key) : Key := d.storeKey c.2.1 c.2.2.2
+
+/-- read through `DetPairData::operator()` -/
+def Fan.at2 [OfNat K 0] (F : Fan K) (d : DPDims) (a b : Int) : K := F.get (d.storeKey a b)
+/-- write through `DetPairData::operator()` -/
+def Fan.put2 (F : Fan K) (d : DPDims) (a b : Int) (v : K) : Fan K := F.set (d.storeKey a b) v
+
+/-- one `(view, tangential position)` of the loop of `make_det_pair_data_help` (ML_norm.cxx:217-220):
+`det_pair_data(det_num_a, det_num_b) = pos_sino[view][tang]; det_pair_data(det_num_b, det_num_a) = neg_sino[view][tang];`
+`e = ((det_num_a, det_num_b), (pos value, neg value))`. -/
+def makeDPStep (d : DPDims) (F : Fan K) (e : (Int × Int) × (K × K)) : Fan K :=
+  (F.put2 d e.1.1 e.1.2 e.2.1).put2 d e.1.2 e.1.1 e.2.2
+
+/-- `make_det_pair_data(DetPairData&, const ProjData&, segment_num, ax_pos_num)` (ML_norm.cxx:192-239).  `bins` = the loop
+`view = 0..N/2-1`, `tang = min..max` in loop order, each with the detector pair the geometry gives it
+(`get_det_num_pair_for_view_tangential_pos_num`, property C01 — a parameter here) and the values of the sinograms of
+segment `+s` and `-s` (for `s = 0` the same sinogram, :205-206). -/
+def makeDP (d : DPDims) (bins : List ((Int × Int) × (K × K))) : Fan K :=
+  bins.foldl (makeDPStep d) {}
+
+/-- `set_det_pair_data` (ML_norm.cxx:997-1049): the values written to `pos_sino[view][tang]` and — `if (segment_num != 0)` —
+to `neg_sino[view][tang]`, for the same loop. -/
+def setDP [OfNat K 0] (d : DPDims) (F : Fan K) (segNonzero : Bool) (bins : List (Int × Int)) : List (K × Option K) :=
+  bins.map fun p => (F.at2 d p.1 p.2, if segNonzero then some (F.at2 d p.2 p.1) else none)
+
+/-- the factor of `apply_efficiencies(DetPairData&, …)`: `efficiencies[a] * efficiencies[b % num_detectors]` (ML_norm.cxx:298) -/
+def dpEffFactor [OfNat K 0] [Mul K] (d : DPDims) (eff : Tab K) (c : Key) : K :=
+  eff.get (0, c.2.1) * eff.get (0, Int.tmod c.2.2.2 d.N)
+
+/-- `apply_efficiencies(DetPairData&, const Array<1,float>&, bool apply)` (ML_norm.cxx:288-302) -/
+def dpApplyEff [OfNat K 0] [BEq K] [Mul K] [Div K] (d : DPDims) (F : Fan K) (eff : Tab K) (apply : Bool) : Fan K :=
+  d.canon.foldl (factorStep d.key (dpEffFactor d eff) apply) F
+
+/-- the factor of `apply_block_norm(DetPairData&, …)`: `block_data[a / num_crystals_per_block][(b / num_crystals_per_block) % num_blocks]`,
+`num_crystals_per_block = num_detectors / num_blocks` (ML_norm.cxx:244-246, 256) -/
+def dpBlockFactor [OfNat K 0] (d : DPDims) (nb : Int) (blk : Tab K) (c : Key) : K :=
+  let cpb := Int.tdiv d.N nb
+  blk.get (Int.tdiv c.2.1 cpb, Int.tmod (Int.tdiv c.2.2.2 cpb) nb)
+
+/-- `apply_block_norm(DetPairData&, const BlockData&, bool apply)` (ML_norm.cxx:241-260); `nb = block_data.get_length()` -/
+def dpApplyBlock [OfNat K 0] [BEq K] [Mul K] [Div K] (d : DPDims) (nb : Int) (F : Fan K) (blk : Tab K) (apply : Bool) : Fan K :=
+  d.canon.foldl (factorStep d.key (dpBlockFactor d nb blk) apply) F
+
+/-- the index pair of the geometric factor of `apply_geo_norm(DetPairData&, …)` (ML_norm.cxx:273-282): translate to the first
+block, mirror into its first half. -/
+def dpGeoIndex (d : DPDims) (half : Int) (a b : Int) : Int × Int :=
+  let cpb := half * 2
+  let newa := Int.tmod a cpb
+  let newb := b - (a - newa)
+  if newa > cpb - 1 - newa then (cpb - 1 - newa, Int.tmod (2 * d.N + (-newb + cpb - 1)) d.N)
+  else (newa, Int.tmod (2 * d.N + newb) d.N)
+
+/-- the factor of `apply_geo_norm(DetPairData&, …)` -/
+def dpGeoFactor [OfNat K 0] (d : DPDims) (half : Int) (geo : Tab K) (c : Key) : K :=
+  geo.get (dpGeoIndex d half c.2.1 c.2.2.2)
+
+/-- `apply_geo_norm(DetPairData&, const GeoData&, bool apply)` (ML_norm.cxx:262-286); `half = geo_data.get_length()` -/
+def dpApplyGeo [OfNat K 0] [BEq K] [Mul K] [Div K] (d : DPDims) (half : Int) (F : Fan K) (geo : Tab K) (apply : Bool) : Fan K :=
+  d.canon.foldl (factorStep d.key (dpGeoFactor d half geo) apply) F
+
+/-- `DetPairData::sum(a)` (ML_norm.cxx:123-127): the sum of row `[a]` -/
+def dpFanSum [OfNat K 0] [Add K] (d : DPDims) (F : Fan K) (a : Int) : K :=
+  (intRange (d.minB a) (d.maxB a)).foldl (fun s b => s + F.get (0, a, 0, b)) 0
+
+/-- `make_fan_sum_data(Array<1,float>&, const DetPairData&)` (ML_norm.cxx:304-309) -/
+def dpMakeFanSums [OfNat K 0] [Add K] (d : DPDims) (F : Fan K) : Tab K :=
+  (intRange 0 (d.N - 1)).foldl (fun T a => T.set (0, a) (dpFanSum d F a)) {}
+
+/-- all index pairs `[i][j]`, `i < n`, `j < m` of an `Array<2,float>` -/
+def grid (n m : Int) : List (Int × Int) :=
+  (intRange 0 (n - 1)).flatMap fun i => (intRange 0 (m - 1)).map fun j => (i, j)
+
+/-- first loop of `make_geo_data(GeoData&, const DetPairData&)` (ML_norm.cxx:323-328): the mirror-summed copy `work` -/
+def dpMirrorSum [OfNat K 0] [Add K] (d : DPDims) (F : Fan K) : Fan K :=
+  d.canon.foldl (fun W c =>
+    let a := c.2.1
+    let b := c.2.2.2
+    W.put2 d a b (F.at2 d a b + F.at2 d (d.N - 1 - a) (Int.tmod (2 * d.N - 1 - b) d.N))) {}
+
+/-- `make_geo_data(GeoData&, const DetPairData&)` (ML_norm.cxx:311-347); `half = geo_data.get_length()`; `cast` = `int → float`
+(`geo_data /= 2 * num_blocks`). -/
+def dpMakeGeo [OfNat K 0] [Add K] [Div K] (cast : Int → K) (d : DPDims) (half : Int) (F : Fan K) : Tab K :=
+  let cpb := half * 2
+  let nb := Int.tdiv d.N cpb
+  let work := dpMirrorSum d F
+  let G : Tab K := (intRange 0 (Int.tdiv cpb 2 - 1)).foldl (fun G ca =>
+    (intRange (d.minB ca) (d.maxB ca)).foldl (fun G db =>
+      (intRange 0 (nb - 1)).foldl (fun G blk =>
+        let inc := blk * cpb
+        let na := Int.tmod (ca + inc) d.N
+        let nbb := Int.tmod (db + inc) d.N
+        if d.isInData na nbb then G.set (ca, Int.tmod db d.N) (G.get (ca, Int.tmod db d.N) + work.at2 d na nbb) else G) G) G) {}
+  (grid half d.N).foldl (fun G k => G.set k (G.get k / cast (2 * nb))) G
+
+/-- `make_block_data(BlockData&, const DetPairData&)` (ML_norm.cxx:349-366); `nb = block_data.get_length()`
+(`block_data /= square(num_crystals_per_block)`). -/
+def dpMakeBlock [OfNat K 0] [Add K] [Div K] (cast : Int → K) (d : DPDims) (nb : Int) (F : Fan K) : Tab K :=
+  let cpb := Int.tdiv d.N nb
+  let B : Tab K := d.canon.foldl (fun B c =>
+    let k := (Int.tdiv c.2.1 cpb, Int.tmod (Int.tdiv c.2.2.2 cpb) nb)
+    B.set k (B.get k + F.at2 d c.2.1 c.2.2.2)) {}
+  (grid nb nb).foldl (fun B k => B.set k (B.get k / cast (cpb * cpb))) B
+
+/-- the denominator loop of `iterate_efficiencies(Array<1,float>&, …, const DetPairData& model)` (ML_norm.cxx:380-382) -/
+def dpEffDenominator [OfNat K 0] [Add K] [Mul K] (d : DPDims) (model : Fan K) (eff : Tab K) (a : Int) : K :=
+  (intRange (d.minB a) (d.maxB a)).foldl (fun s b => s + eff.get (0, Int.tmod b d.N) * model.at2 d a b) 0
+
+/-- body of the detector loop (ML_norm.cxx:373-385), in place -/
+def dpEffStep [OfNat K 0] [BEq K] [Add K] [Mul K] [Div K] (d : DPDims) (sums : Tab K) (model : Fan K) (eff : Tab K) (a : Int) : Tab K :=
+  if sums.get (0, a) == 0 then eff.set (0, a) 0
+  else eff.set (0, a) (sums.get (0, a) / dpEffDenominator d model eff a)
+
+/-- `iterate_efficiencies(Array<1,float>& efficiencies, const Array<1,float>& data_fan_sums, const DetPairData& model)`
+(ML_norm.cxx:368-386); `num_detectors = efficiencies.get_length()` is the `N` of `d`. -/
+def dpIterateEff [OfNat K 0] [BEq K] [Add K] [Mul K] [Div K] (d : DPDims) (eff sums : Tab K) (model : Fan K) : Tab K :=
+  (intRange 0 (d.N - 1)).foldl (dpEffStep d sums model) eff
+
+/-- `iterate_geo_norm(GeoData& norm, const GeoData& measured, const DetPairData& model)` (ML_norm.cxx:388-403) -/
+def dpIterateGeo [OfNat K 0] [OfNat K 10000] [LT K] [DecidableLT K] [Add K] [Mul K] [Div K] (cast : Int → K)
+    (d : DPDims) (half : Int) (measured : Tab K) (model : Fan K) : Tab K :=
+  let norm := dpMakeGeo cast d half model
+  let cpb := half * 2
+  let thr := findMax ((grid half d.N).map measured.get) / 10000
+  (grid (Int.tdiv cpb 2) d.N).foldl (fun G k => G.set k (ratioOrZero thr (measured.get k) (G.get k))) norm
+
+/-- `iterate_block_norm(BlockData& norm, const BlockData& measured, const DetPairData& model)` (ML_norm.cxx:405-420);
+`num_blocks = norm_block_data.get_length()` -/
+def dpIterateBlock [OfNat K 0] [OfNat K 10000] [LT K] [DecidableLT K] [Add K] [Mul K] [Div K] (cast : Int → K)
+    (d : DPDims) (nb : Int) (measured : Tab K) (model : Fan K) : Tab K :=
+  let norm := dpMakeBlock cast d nb model
+  let thr := findMax ((grid nb nb).map measured.get) / 10000
+  (grid nb nb).foldl (fun B k => B.set k (ratioOrZero thr (measured.get k) (B.get k))) norm
+
+/-- `KL(const DetPairData& d1, const DetPairData& d2, const double threshold)` (ML_norm.cxx:422-434), same nesting of the
+partial sums -/
+def dpKL [OfNat K 0] [LT K] [DecidableLT K] [Add K] [Sub K] [Mul K] (log : K → K) (d : DPDims) (F1 F2 : Fan K) (thr : K) : K :=
+  (intRange 0 (d.N - 1)).foldl (fun sum a =>
+    sum + (intRange (d.minB a) (d.maxB a)).foldl (fun bsum b => bsum + klTerm log (F1.at2 d a b) (F2.at2 d a b) thr) 0) 0
+
 end values
 end StirVerif.C20
